@@ -42,7 +42,7 @@ struct Classic {
 }
 impl Engine for Classic {
     fn push(&mut self, m: &[u8], ad: &[u8], tag: u8) -> Result<Vec<u8>, ()> {
-        let mut c = vec![0u8; m.len() + 17];
+        let mut c = vec![SENT; m.len() + 17];
         crypto_secretstream_xchacha20poly1305_push(&mut self.s, &mut c, m, if ad.is_empty() { None } else { Some(ad) }, tag).map_err(|_| ())?;
         Ok(c)
     }
@@ -124,7 +124,7 @@ struct Mixed {
 }
 impl Engine for Mixed {
     fn push(&mut self, m: &[u8], ad: &[u8], tag: u8) -> Result<Vec<u8>, ()> {
-        let mut c = vec![0u8; m.len() + 17];
+        let mut c = vec![SENT; m.len() + 17];
         crypto_secretstream_xchacha20poly1305_push(&mut self.s, &mut c, m, if ad.is_empty() { None } else { Some(ad) }, tag).map_err(|_| ())?;
         Ok(c)
     }
@@ -320,7 +320,7 @@ pub fn dispatch(op: &str, a: &[&str]) -> Option<Ans> {
                     let mut pushing = State::new();
                     crypto_secretstream_xchacha20poly1305_init_pull(&mut pushing, &h, &k);
                     let msg = b"prefix view".to_vec();
-                    let mut c = vec![0u8; msg.len() + 17];
+                    let mut c = vec![SENT; msg.len() + 17];
                     crypto_secretstream_xchacha20poly1305_push(&mut pushing, &mut c, &msg, None, 0).unwrap();
                     match obj.pull_to_vec(&c, None) {
                         Ok((m, _)) if m == msg => format!("ok {}", st_hex(&st)),
